@@ -2,7 +2,8 @@
 # usage: tools/seedcheck.sh <seeded dir name, e.g. C05-A> <check ids...>   (uses the stored patch in /verif/seeded)
 n=$1; shift
 dir=/dev/shm/sc-$n
-rm -rf $dir; git -C /repo worktree prune; git -C /repo worktree add -q --detach $dir HEAD || exit 2
+base=$(/venv/bin/python -c "import json; print(json.load(open('/verif/seeded/$n/meta.json')).get('base_commit','HEAD'))" 2>/dev/null | tail -1)
+rm -rf $dir; git -C /repo worktree prune; git -C /repo worktree add -q --detach $dir ${base:-HEAD} || exit 2
 ( cd $dir && git apply /verif/seeded/$n/patch.diff ) || { echo "$n: patch does not apply"; git -C /repo worktree remove --force $dir; exit 2; }
 cd /verif
 for c in "$@"; do
